@@ -340,3 +340,18 @@ Fixpoint p_has_from (chars : list N) (t : ptrie) (word : str) (nodeId bmIdx : N)
   end.
 
 Definition p_has (chars : list N) (t : ptrie) (word : str) : bool := p_has_from chars t word 0 0.
+
+(* ---------- the tree the BFS enumerates, walked directly (no numbering) ----------
+   [walk g w]: follow w from the node g through [kids]; used to split the LOUDS argument into
+   "the tree of [kids] represents the key set" (proved) and "the LOUDS arrays navigate that tree". *)
+Fixpoint walk (g : node) (w : str) : bool :=
+  match w with
+  | [] => is_leaf g
+  | c :: w' =>
+      is_leaf g ||
+      match find (fun k => fst k =? c) (kids g) with
+      | Some k => walk (snd k) w'
+      | None => false
+      end
+  end.
+Definition t_walk (keys : list str) (w : str) : bool := walk (sort_uniq keys) w.
